@@ -4,7 +4,7 @@
 (* instance creations, the declaration of an object variable at some point of that sequence,  *)
 (* and one constraint on it (a field value, an equality or disequality with an instance, a    *)
 (* field reached through a chain of two variables, a bound on a field that is a variable  *)
-(* of its own, bounded differently in every instance). The reference semantics gives the domain  *)
+(* of its own, bounded differently in every instance; enum types with included enums). The reference semantics gives the domain  *)
 (* of the variable at its declaration (exactly the instances of its type and subtypes created *)
 (* so far), whether the program has a solution and which instances the variable may denote.   *)
 EXTENDS Integers, Sequences, FiniteSets, SequencesExt, Json, IOUtils, TLC
@@ -95,7 +95,30 @@ RangeCases ==
     sat |-> IF \E i \in 1..3 : Fits(<<r1, r2, r3>>[i], r, k) THEN 1 ELSE 0] :
      r1 \in RangeSet, r2 \in RangeSet, r3 \in RangeSet, r \in Rels, k \in 0..3}
 
-Cases == {ObjCase(c) : c \in {x \in RawCases : WellTyped(x)}} \cup HolderCases \cup RangeCases
+\* enum types: an enum variable ranges over the declared values and over the values of the included enums. k variables of
+\* the enum that must be pairwise different exist iff the enum has at least k values; a variable of the enum can equal a
+\* variable of the included enum iff it is included
+Quote(str) == "\"" \o str \o "\""
+RECURSIVE EnumVals(_, _)
+EnumVals(prefix, n) == IF n = 0 THEN "" ELSE (IF n > 1 THEN EnumVals(prefix, n - 1) \o ", " ELSE "") \o Quote(prefix \o Num(n))
+RECURSIVE VarList(_)
+VarList(k) == IF k = 1 THEN "x1" ELSE VarList(k - 1) \o ", x" \o (CASE k = 2 -> "2" [] k = 3 -> "3" [] k = 4 -> "4" [] k = 5 -> "5")
+XName(i) == "x" \o (CASE i = 1 -> "1" [] i = 2 -> "2" [] i = 3 -> "3" [] i = 4 -> "4" [] i = 5 -> "5")
+RECURSIVE AllDiff(_, _)
+AllDiff(i, k) == IF i >= k THEN "" ELSE (LET RECURSIVE Row(_)
+                                              Row(j) == IF j > k THEN "" ELSE XName(i) \o " != " \o XName(j) \o "; " \o Row(j + 1)
+                                          IN Row(i + 1)) \o AllDiff(i + 1, k)
+EnumCases ==
+  {[kind |-> "verdict", fam |-> "enum",
+    text |-> "enum A {" \o EnumVals("a", nA) \o "}; enum B {" \o EnumVals("b", nB) \o "}" \o (IF incl THEN " | A" ELSE "") \o "; B " \o VarList(k) \o "; " \o AllDiff(1, k),
+    var |-> "x1", dom0 |-> <<>>, allowed |-> <<>>,
+    sat |-> IF k <= nB + (IF incl THEN nA ELSE 0) THEN 1 ELSE 0] : nA \in 1..3, nB \in 1..2, incl \in BOOLEAN, k \in 2..5}
+  \cup
+  {[kind |-> "verdict", fam |-> "enum",
+    text |-> "enum A {" \o EnumVals("a", nA) \o "}; enum B {" \o EnumVals("b", nB) \o "}" \o (IF incl THEN " | A" ELSE "") \o "; B x1; A y; x1 == y; ",
+    var |-> "x1", dom0 |-> <<>>, allowed |-> <<>>, sat |-> IF incl THEN 1 ELSE 0] : nA \in 1..3, nB \in 1..2, incl \in BOOLEAN}
+
+Cases == {ObjCase(c) : c \in {x \in RawCases : WellTyped(x)}} \cup HolderCases \cup RangeCases \cup EnumCases
 ASSUME ndJsonSerialize(Out, SetToSeq(Cases))
 ASSUME PrintT(<<"GENERATED", Cardinality(Cases)>>)
 
